@@ -1325,7 +1325,9 @@ class DoDoer(Doer):
             if not dog:  # Marker detected so this run through once has completed
                 break  # break loop at marker signifies once through
 
-            if retyme <= tyme:  # run it now
+            if retyme is None or retyme <= tyme:  # run it now, None means rerun asap
+                if retyme is None:  # rerun asap so base of cumulative retyme is now
+                    retyme = tyme
                 try:  # send tyme. yield tock, tock may change during sended run
                     tock = dog.send(tyme)  # yielded tock == 0.0 means re-run asap
                 except StopIteration as ex:  # returned instead of yielded
@@ -1336,7 +1338,7 @@ class DoDoer(Doer):
                         doer.__func__.done = ex.value if ex.value is not None else doer.done
                 else:  # reappend for next pass
                     if not tock:  # tock is None or tock == 0.0 with empty yield tock == None
-                        retyme = tyme + self.tock  # rerun at next recur
+                        retyme = None  # rerun at next recur whenever that is
                     else:
                         retyme += tock  # cumulative retyme of doer tock
                     deeds.append((dog, retyme, doer))  # reappend for next run through
